@@ -20,7 +20,7 @@ def sh(cmd, **kw):
 def collect(root):
     for b in sorted(os.listdir(root)):
         d = os.path.join(root, b)
-        if not (os.path.isdir(d) and re.fullmatch(r"B\d+", b)): continue
+        if not (os.path.isdir(d) and re.fullmatch(r"[BD]\d+", b)): continue
         for n in (1, 2, 3):
             src = os.path.join(d, f"benign{n}.diff")
             if not os.path.exists(src): continue
